@@ -11,7 +11,7 @@ from ..core import hx
 PROOF_MODULE = "Nlmodel.Proofs.C06"
 PROOF_FILES = ["Nlmodel/Proofs/C06.lean", "Nlmodel/Model/Value.lean", "Nlmodel/Model/Float.lean"]
 THEOREM_FILE = PROOF_FILES[0]
-LEVEL_TEXT = ("Lean theorems about binopCore, the operator semantics shared by machine model and definitional semantics: integer + - * / % give the exact result iff it exists and is in the 61-bit range and a type error otherwise; truncating division/remainder characterisation; the six integer comparisons agree with the integers; string order is a strict total order (irreflexive, asymmetric, transitive, trichotomous); mixed or unsupported operand types are always an error. Floats are modelled as exact rational arithmetic with round-to-nearest-even (Model/Float) and compared bit for bit with the host IEEE unit. The model is tied to object.rs/vm.rs/compiler.rs by evaluating every pair of a boundary lattice for all 11 operators in three syntactic forms (literal op literal, variable op literal in a function = fused opcode, literal op variable in a function) on the real interpreter and on the model, with an exact big-integer oracle. SESSION 7: the implementation orders texts BYTEWISE; UTF-8 preserves code-point order: C06_string_order_on_bytes, C06_string_comparisons_on_bytes (all six comparisons of the model are what bytewise < and == on the encodings give), for all texts.")
+LEVEL_TEXT = ("Lean theorems about binopCore, the operator semantics shared by machine model and definitional semantics: integer + - * / % give the exact result iff it exists and is in the 61-bit range and a type error otherwise; truncating division/remainder characterisation; the six integer comparisons agree with the integers; string order is a strict total order (irreflexive, asymmetric, transitive, trichotomous); mixed or unsupported operand types are always an error. Floats are modelled as exact rational arithmetic with round-to-nearest-even (Model/Float) and compared bit for bit with the host IEEE unit. The model is tied to object.rs/vm.rs/compiler.rs by evaluating every pair of a boundary lattice for all 11 operators in three syntactic forms (literal op literal, variable op literal in a function = fused opcode, literal op variable in a function) on the real interpreter and on the model, with an exact big-integer oracle. SESSION 7: the implementation orders texts BYTEWISE; UTF-8 preserves code-point order: C06_string_order_on_bytes, C06_string_comparisons_on_bytes (all six comparisons of the model are what bytewise < and == on the encodings give), for all texts. SPECIAL VALUES (Lemmas/FloatSpecial*): for ALL bit patterns each float operation equals a complete IEEE case table over NaN / infinite / zero / sign (C06_float_add/mul/div/rem_all_cases): NaN propagates, inf-inf, 0*inf, inf/inf, 0/0, x%0, inf%y are NaN, x/0 is the infinity with the xor sign, x%inf = x, a remainder has the sign of the dividend; C06_float_comparisons_with_nan (all six operators of the language: false, != true); C06_float_order_trichotomy on non-NaN values.")
 LEVEL_NOTE = ("Trusted: Lean kernel; the exact float model's rounding IS proved correct (C06_float_rounding_is_correct: for every positive fraction the computed magnitude is the unique nearest-ties-to-even finite magnitude below the overflow threshold 2^1024-2^970 and infinity from there on, normals and subnormals; C06_float_add/sub/mul/div: each operation on finite operands is that rounding applied to the EXACT result with the IEEE sign rules; C06_float_lt_is_value_order); that the host FPU and Rust's f64 implement the same IEEE-754 function is validated by the correspondence on every float a run meets, not proved (hardware is outside every theorem); C06_float_rem_exact: % on finite floats is exact (the remainder is representable, no rounding); decimal printing/parsing round trip is C14_float_text_roundtrip; Rust str ordering = code-point order (std).")
 TECHNIQUE = "Lean 4 proof about the shared operator semantics + exhaustive lattice correspondence with big-integer oracle"
 RULE = ("all pairs of the integer boundary lattice x 11 operators x 3 syntactic forms (complete in the thorough tier; k in a "
@@ -167,6 +167,8 @@ def run(res, tier, rng, table_diffs=()):
         cp = lambda u: [ord(ch) for ch in u]
         r = {"<": cp(s) < cp(t), "<=": cp(s) <= cp(t), ">": cp(s) > cp(t), ">=": cp(s) >= cp(t), "==": s == t, "!=": s != t}[op]
         cases.append(("string-long-prefix", 'functie c(u, v) { u %s v }; c("%s", "%s")' % (op, s, t), "ok b:ja" if r else "ok b:nee"))
+    for p in gen2.float_alias_programs():
+        cases.append(("float-alias", p, None))
     samples = {"null": "als nee { 1 }", "bool": "ja", "int": "3", "float": "1.5", "str": '"a"', "arr": "[1]", "fn": "functie() { 1 }"}
     for ta, sa in samples.items():
         for tb, sb in samples.items():
